@@ -231,10 +231,30 @@ func c15errClass(err error) string {
 
 // c15bind runs one Bind of a fresh value of the type on the given binder
 func c15bind(b binding.Binder, fs []c15field, ty reflect.Type, parts []string) string {
+	return c15bindAPI(b, "Bind", fs, ty, parts)
+}
+
+// c15bindAPI: the same through one of the binder's entry points (each keeps its own per-type decoder cache)
+func c15bindAPI(b binding.Binder, api string, fs []c15field, ty reflect.Type, parts []string) string {
 	req, ps := c15request(parts, fs)
 	defer protocol.ReleaseRequest(req)
 	v := reflect.New(ty)
-	if err := b.Bind(req, v.Interface(), ps); err != nil {
+	var err error
+	switch api {
+	case "BindPath":
+		err = b.BindPath(req, v.Interface(), ps)
+	case "BindQuery":
+		err = b.BindQuery(req, v.Interface())
+	case "BindHeader":
+		err = b.BindHeader(req, v.Interface())
+	case "BindForm":
+		err = b.BindForm(req, v.Interface())
+	case "BindAndValidate":
+		err = b.BindAndValidate(req, v.Interface(), ps)
+	default:
+		err = b.Bind(req, v.Interface(), ps)
+	}
+	if err != nil {
 		return c15errClass(err)
 	}
 	return c15render(fs, v.Elem())
@@ -347,15 +367,21 @@ func init() {
 				ty    reflect.Type
 				parts []string
 				alone string
+				api   string
 			}
 			var items []item
 			for i := 1; i+8 <= len(in); i += 8 {
-				it := item{fs: c15parseType(in.S(i))}
+				// "<API>@<type>": the entry point used for this item (Bind when absent)
+				tyText, api := in.S(i), "Bind"
+				if k := strings.Index(tyText, "@"); k >= 0 {
+					api, tyText = tyText[:k], tyText[k+1:]
+				}
+				it := item{fs: c15parseType(tyText), api: api}
 				it.ty = c15goType(it.fs)
 				for j := 0; j < 7; j++ {
 					it.parts = append(it.parts, in.S(i+1+j))
 				}
-				it.alone = c15bind(binding.NewDefaultBinder(nil), it.fs, it.ty, it.parts)
+				it.alone = c15bindAPI(binding.NewDefaultBinder(nil), it.api, it.fs, it.ty, it.parts)
 				items = append(items, it)
 			}
 			var out []Finding
@@ -363,8 +389,8 @@ func init() {
 			t.Count(fmt.Sprintf("goroutines/%d", G))
 			if G <= 1 {
 				for k, it := range items {
-					if got := c15bind(b, it.fs, it.ty, it.parts); got != it.alone {
-						out = append(out, Finding{Kind: "oracle", Unit: "c15.history", Class: "result-depends-on-earlier-binds", Impl: fmt.Sprintf("item %d: %s", k, got), Expect: it.alone})
+					if got := c15bindAPI(b, it.api, it.fs, it.ty, it.parts); got != it.alone {
+						out = append(out, Finding{Kind: "oracle", Unit: "c15.history", Class: "result-depends-on-earlier-binds", Impl: fmt.Sprintf("item %d (%s): %s", k, it.api, got), Expect: it.alone})
 					}
 				}
 				return out
@@ -377,7 +403,7 @@ func init() {
 					defer wg.Done()
 					for k := range items {
 						it := items[(k+g)%len(items)]
-						if got := c15bind(b, it.fs, it.ty, it.parts); got != it.alone {
+						if got := c15bindAPI(b, it.api, it.fs, it.ty, it.parts); got != it.alone {
 							mu.Lock()
 							out = append(out, Finding{Kind: "oracle", Unit: "c15.history", Class: "result-depends-on-concurrent-binds", Impl: got, Expect: it.alone})
 							mu.Unlock()
@@ -399,6 +425,9 @@ func init() {
 				for k, n := 0, 2+t.R.Intn(6); k < n; k++ {
 					ty := pool[t.R.Intn(len(pool))][0]
 					_, parts := c15genReq(t, c15parseType(ty))
+					if t.R.Intn(3) == 0 { // one item in three goes through another entry point of the same binder
+						ty = []string{"BindPath", "BindQuery", "BindHeader", "BindForm", "BindAndValidate"}[t.R.Intn(5)] + "@" + ty
+					}
 					in = append(in, S(ty))
 					for _, p := range parts {
 						in = append(in, S(p))
